@@ -289,12 +289,13 @@ def do_copy(how, n):
     return c
 
 
-def history_harness(k):
+def history_harness(k, first=None):
+    """first: the first state-building operation, fixed per obligation instance only to spread the work over the process pool"""
     def harness(ex):
         n = Node()
         wrote = False
         for step in range(k):
-            op = BUILD_OPS[ex.choice("op%d" % step, len(BUILD_OPS))]
+            op = first if (step == 0 and first is not None) else BUILD_OPS[ex.choice("op%d" % step, len(BUILD_OPS))]
             if op == "value":
                 n.value = 7 + step
             elif op == "rename":
@@ -527,7 +528,8 @@ def obligations(tier, build):
     obs.append(Obligation("bare-list-bound-validator", bare_list_harness, bounds={"copiers": ["deepcopy", "pickle 2-5", "deepcopy with the owner in the memo"]},
                           leverage="choice feasibility only"))
     K = 2 if tier == "quick" else 3
-    obs.append(Obligation("history/k=%d" % K, history_harness(K),
-                          bounds={"state-building operations": BUILD_OPS, "k": K, "copiers": COPIERS},
-                          leverage="choice feasibility only (pickle/copy are C boundaries)", max_paths=200000))
+    for first in BUILD_OPS:
+        obs.append(Obligation("history/k=%d/first=%s" % (K, first), history_harness(K, first),
+                              bounds={"state-building operations": BUILD_OPS, "k": K, "first operation": first, "copiers": COPIERS},
+                              leverage="choice feasibility only (pickle/copy are C boundaries)", max_paths=200000))
     return obs
